@@ -243,6 +243,9 @@ def _method_call(fr: Frame, e, f: ast.Attribute, args, kwargs, env, guard, stmt)
                     env[f.value.id] = anf.opaque("list:" + f.value.id, extra=fr.ev.fresh_sym("l").key[0])
             elif isinstance(cur, Vec) and cur.kind == "list":
                 env[f.value.id] = ev.fresh_sym(f.value.id + "@list")
+            elif isinstance(cur, Rat) and m in ("add", "update", "remove", "clear"):
+                # a mutated set is a different value from here on: a later membership test sees the new contents
+                env[f.value.id] = ev.fresh_sym(f.value.id + "@set")
         fr.events.append(Event(guard, m, base_name, tuple(args), e, fr.havoc_depth))
         return NONE
     if m == "pop":
